@@ -116,6 +116,8 @@ func Catalogue() []Prog {
 	// maps whose keys are not strings: the iteration order must be fixed all the same
 	add("for-map-intkeys", S, `<ul><li v-for="(k, v) in mi">{{ k }}={{ v }}</li></ul><ol><li v-for="v in mi">{{ v }}</li></ol>`, nil,
 		map[string]TV{"mi": {K: "map[int]string", L: []TV{tvS("zero"), tvS("one"), tvS("two"), tvS("three"), tvS("four"), tvS("five"), tvS("six"), tvS("seven")}}}, false)
+	add("for-map-keys-printing-alike", S, `<ol><li v-for="v in ma">{{ v }}</li></ol>`, nil,
+		map[string]TV{"ma": {K: "map[any]string/alike", L: []TV{tvS("zero"), tvS("one"), tvS("two"), tvS("three")}}}, false)
 	add("for-map-fm-numeric-keys", F, "---\nstatus:\n  200: ok\n  404: missing\n  500: broken\n  301: moved\n  418: teapot\n  204: empty\n---\n<dl><template v-for=\"(code, text) in status\"><dt>{{ code }}</dt><dd>{{ text }}</dd></template></dl>", nil, nil, false)
 	add("attrs-multi", S, `<a :href="user.name" :title="title" :data-n="n" :data-f="f" id="x" class="st" :class="cls" style="margin:0;color:blue" :style="{color: color, fontSize: '12px'}">k</a>`, nil, nil, false)
 	add("attrs-many-bound", S, `<i :a="n" :b="f" :c="title" :d="cls" :e="color" :g="user.name" :h="show">z</i>`, nil, nil, false)
